@@ -9,6 +9,8 @@ CONSTANTS
   XerVals = 2
   ValCap = 0
   MaxFail = 6
+  LeafCap = 0
+  MutDense = FALSE
 INIT Init
 NEXT Next
 INVARIANTS RoundTrip WireCanonical Export
